@@ -234,3 +234,68 @@ def rule_enum_spec(chk, fb, rid, side):
         else:
             miss = sorted(v for v in vals if v not in R.get(adt, {}))
             chk.ob(r, "%s:reads" % name, not miss, where=fb.adts[adt]["file"] if adt in fb.adts else "", detail="%s: values the reader does not accept: %s" % (st, miss or "none"))
+
+
+def rule_omitted_defaults(chk, fb, rid, exclude=()):
+    """An attribute may be left out when its value is what the reader assumes for an absent attribute. If the writer
+    leaves it out for a particular enum variant, that variant has to be the enum's own Default (the reader's fallback) -
+    the schema's default is irrelevant to a round trip."""
+    import hirq
+
+    r = chk.rule(
+        rid,
+        "omitted attributes come back: wherever a struct writer pushes an attribute only if an enum-valued field differs from (or equals) a particular variant, the variant for which the attribute is omitted is the enum's Default",
+        floor=0,
+    )
+    defaults = {}
+    for d, b in fb.mir.items():
+        if d.endswith(" as std::default::Default>::default") and d.startswith("<"):
+            adt = d[1:].split(" as ")[0]
+            for bl in b["blocks"]:
+                for st in bl["s"]:
+                    if st["k"] == "assign" and st["lhs"]["l"] == 0 and st["rv"]["k"] == "agg" and st["rv"].get("adt") == adt:
+                        defaults[adt] = st["rv"].get("variant")
+    n = 0
+    for d, h in sorted(fb.hir.items()):
+        if not d.split("::")[-1].startswith("write_to") or d.split("::")[-2] in exclude:
+            continue
+        for x in hirq.walk(h["body"]):
+            if x.get("k") != "if":
+                continue
+            pushes = [hirq.lit_value(y["es"][0]) for y in hirq.walk(x["then"]) if y.get("k") == "tup" and len(y.get("es", [])) == 2 and isinstance(hirq.lit_value(y["es"][0]), str)]
+            else_pushes = [hirq.lit_value(y["es"][0]) for y in hirq.walk(x["else"]) if y.get("k") == "tup" and len(y.get("es", [])) == 2 and isinstance(hirq.lit_value(y["es"][0]), str)] if x.get("else") else []
+            if not pushes and not else_pushes:
+                continue
+            c = hirq.strip(x["cond"])
+            neg = False
+            while c.get("k") == "un" and c.get("op") == "Not":
+                neg = not neg
+                c = hirq.strip(c["e"])
+            variant = None
+            if c.get("k") == "match" and c.get("mac") and c["mac"][0] == "matches":
+                pats = [a["pat"] for a in c["arms"] if a["pat"].get("k") == "path" and a["pat"].get("dk") == "Ctor"]
+                if len(pats) == 1 and any((cc.get("def") or "").endswith("::get_value") for cc in hirq.calls(c["scrut"])):
+                    variant = pats[0].get("ctor_of") or pats[0].get("def")
+            elif c.get("k") == "bin" and c.get("op") in ("==", "!="):
+                for a_, b_ in ((c["l"], c["r"]), (c["r"], c["l"])):
+                    pb = hirq.strip(b_)
+                    while pb.get("k") == "ref":
+                        pb = hirq.strip(pb["e"])
+                    if pb.get("k") == "path" and pb.get("dk") == "Ctor" and any((cc.get("def") or "").endswith("::get_value") for cc in hirq.calls(a_)):
+                        variant = pb.get("ctor_of") or pb.get("def")
+                        if c["op"] == "!=":
+                            neg = not neg
+            if not variant:
+                continue
+            enum = variant.rsplit("::", 1)[0]
+            # cond true <=> value == variant (neg flips). pushes happen in `then`: omitted when cond is false.
+            omitted_for_variant = (pushes and neg) or (else_pushes and not neg)
+            if not omitted_for_variant:
+                continue
+            dv = defaults.get(enum)
+            ok = dv is not None and variant.endswith("::" + dv)
+            chk.touch(d)
+            chk.ob(r, "%s:%s" % ("::".join(d.split("::")[-2:]), (pushes or else_pushes)[0]), ok, where="%s:%s" % (h["file"], x.get("ln")),
+                   detail="attribute `%s` is omitted when the value is %s; an absent attribute is read as %s::%s" % ((pushes or else_pushes)[0], variant.split("::")[-1], enum.split("::")[-1], dv))
+            n += 1
+    chk.ob(r, "scan", True, where="src/structs", detail="%d variant-conditioned attribute(s) found in struct writers" % n, nontrivial=False)
